@@ -270,7 +270,7 @@ func (s *mainSession) nextSeed() int64 { s.seed += 7919; return s.seed }
 // probeTCP connects to ep and presents a valid stream under key.
 func (s *mainSession) probeTCP(addr string, key *kit.Key) (probeResult, *kit.Finding, error) {
 	var r probeResult
-	conn, err := net.DialTimeout("tcp", addr, 3*time.Second)
+	conn, err := kit.DialTCP(addr, 3*time.Second)
 	if err != nil {
 		if errors.Is(err, syscall.ECONNREFUSED) {
 			return r, nil, nil
@@ -283,7 +283,7 @@ func (s *mainSession) probeTCP(addr string, key *kit.Key) (probeResult, *kit.Fin
 	from := len(s.ex.Events)
 	plain := append(kit.SocksAddr("127.0.0.1", 9, false), "x"...)
 	conn.Write(kit.EncodeStream(key, kit.DetBytes(s.nextSeed(), key.SaltSize()), plain, nil))
-	conn.(*net.TCPConn).CloseWrite()
+	conn.CloseWrite()
 	// A socket that is being closed may still complete a handshake in the kernel and then reset the
 	// connection: if nobody ever opened the connection and it was reset, the endpoint is not listening.
 	idx, ok, err := s.ex.WaitEvent(from, 300*time.Millisecond, func(e kit.ExecEvent) bool { return e.Kind == "tcp_closed" && e.Remote == local })
@@ -295,7 +295,7 @@ func (s *mainSession) probeTCP(addr string, key *kit.Key) (probeResult, *kit.Fin
 			opened = opened || e.Kind == "tcp_open" && e.Remote == local
 		}
 		if rerr != nil && !kit.IsTimeout(rerr) && !opened {
-			if c2, derr := net.DialTimeout("tcp", addr, 3*time.Second); derr != nil && errors.Is(derr, syscall.ECONNREFUSED) {
+			if c2, derr := kit.DialTCP(addr, 3*time.Second); derr != nil && errors.Is(derr, syscall.ECONNREFUSED) {
 				r.Listening = false
 				return r, nil, nil
 			} else if derr == nil {
